@@ -258,7 +258,13 @@ fn gen_lines(rng: &mut Rng, avoid: &[String]) -> Vec<String> {
                 .to_string(),
             );
         }
-        block.push(format!("release {} {}", rng.pick(&["-r", "--recursive", "-r", ""]), rng.pick(&["${arr}", "${mp}", "${st}", "${arr0}"])).replace("  ", " "));
+        // ... then something that walks the graph: recursive release, or an encoder
+        let target = *rng.pick(&["${arr}", "${mp}", "${st}", "${arr0}"]);
+        block.push(match rng.below(8) {
+            0 | 1 => format!("jc = json_encode --collection {}", target),
+            2 => format!("pc = map_to_properties {}", target),
+            _ => format!("release {} {}", rng.pick(&["-r", "--recursive", "-r", ""]), target).replace("  ", " "),
+        });
         let at = PRELUDE.len() + rng.usize(lines.len() - PRELUDE.len() + 1);
         for (k, b) in block.into_iter().enumerate() {
             lines.insert(at + k, b);
@@ -272,12 +278,35 @@ const ALPHABET: [&str; 40] = [
     "!include_files", "!print",
 ];
 
-fn gen_raw(rng: &mut Rng) -> String {
+fn gen_raw(rng: &mut Rng, deep_ok: bool) -> String {
     let mut s = String::new();
-    match rng.below(10) {
+    // nesting depth of the input: up to 1500 always; far beyond only while the finding about unbounded recursion on
+    // the nesting depth (conditions, calc) is not listed
+    let depth = |rng: &mut Rng| if deep_ok && rng.chance(1, 3) { 20_000 + rng.usize(130_000) } else { 1 + rng.usize(1500) };
+    match rng.below(12) {
+        10 => {
+            // deep parentheses in an arithmetic expression
+            let d = depth(rng);
+            s.push_str("x = calc ");
+            s.push_str(&"(".repeat(d));
+            s.push_str("1 + 1");
+            s.push_str(&")".repeat(d - rng.usize(2).min(d)));
+            s.push('\n');
+        }
+        11 => {
+            // deep brackets / braces in a JSON text (any depth: the parser has its own limit)
+            let d = if rng.chance(1, 3) { 5_000 + rng.usize(60_000) } else { 1 + rng.usize(1500) };
+            let coll = if rng.chance(1, 2) { "--collection " } else { "" };
+            if rng.chance(1, 2) {
+                s.push_str(&format!("x = json_parse {}{}{}\n", coll, "[".repeat(d), "]".repeat(d)));
+            } else {
+                s.push_str(&format!("x = json_parse {}\"{}1{}\"\n", coll, "{\\\"a\\\":".repeat(d), "}".repeat(d)));
+            }
+            s.push_str("y = json_encode x\n");
+        }
         0 => {
             // deep parentheses in a condition
-            let d = 1 + rng.usize(1500);
+            let d = depth(rng);
             s.push_str("x = set ");
             for _ in 0..d {
                 s.push_str("( ");
@@ -542,7 +571,7 @@ impl Prop for C07 {
     fn generate(&self, rng: &mut Rng, avoid: &[String]) -> Value {
         let workload = match rng.below(400) {
             0 if !avoid.iter().any(|a| a == "include_cycle") => Workload::SelfInclude,
-            1..=99 => Workload::Raw(gen_raw(rng)),
+            1..=99 => Workload::Raw(gen_raw(rng, !avoid.iter().any(|a| a == "deep_nesting"))),
             _ => Workload::Lines(gen_lines(rng, avoid)),
         };
         let write_faults = if rng.chance(1, 2) {
@@ -697,6 +726,26 @@ impl Prop for C07 {
                     && match &case.workload {
                         Workload::Lines(lines) => defines_flag_function(lines),
                         Workload::Raw(t) => defines_flag_function(&t.lines().map(|l| l.to_string()).collect::<Vec<_>>()),
+                        _ => false,
+                    }
+            }
+            // the nesting depth of the input is the recursion depth of the condition evaluator and of calc's parser
+            "deep_nesting" => {
+                class.starts_with("abort:")
+                    && match &case.workload {
+                        Workload::Raw(t) => {
+                            let mut d = 0i64;
+                            let mut max = 0i64;
+                            for ch in t.chars() {
+                                if ch == '(' {
+                                    d += 1;
+                                    max = max.max(d);
+                                } else if ch == ')' {
+                                    d -= 1;
+                                }
+                            }
+                            max > 5000
+                        }
                         _ => false,
                     }
             }
